@@ -189,7 +189,7 @@ func c20URL(c *vf.Ctx) {
 	if !c.Active(sub) {
 		return
 	}
-	n := c.N(20000, 1000000)
+	n := c.N(20000, 4000000)
 	for i := 0; i < n; i++ {
 		if !c.Mine(sub, i) {
 			continue
